@@ -340,6 +340,12 @@ func (a *Actor) Sleep(d time.Duration) {
 }
 
 func (a *Actor) do(kind, method, path string, hdr map[string]string, body []byte) *Call {
+	return a.doR(kind, method, path, hdr, body, nil)
+}
+
+// doR is do with a request body that is produced by rd while the handler reads it (a slow upload); sent is
+// what the reader will have produced in total.
+func (a *Actor) doR(kind, method, path string, hdr map[string]string, body []byte, rd io.Reader) *Call {
 	a.alive()
 	w := a.W
 	c := &Call{Actor: a.Name, Gen: a.Gen, Pid: a.P.Pid, Kind: kind, Path: path, Issued: sched.StepNo(), IssuedNs: sched.NowNs(), Answered: -1, Sent: body, IssuedAt: sched.StampNow()}
@@ -347,7 +353,10 @@ func (a *Actor) do(kind, method, path string, hdr map[string]string, body []byte
 	w.Milestone++
 	sched.Record("issue:" + a.Name + ":" + kind)
 	rec := httptest.NewRecorder()
-	req := httptest.NewRequest(method, "http://127.0.0.1:9001"+path, bytes.NewReader(body))
+	if rd == nil {
+		rd = bytes.NewReader(body)
+	}
+	req := httptest.NewRequest(method, "http://127.0.0.1:9001"+path, rd)
 	for k, v := range hdr {
 		req.Header.Set(k, v)
 	}
@@ -394,6 +403,37 @@ func (a *Actor) Response(id string, body []byte) *Call {
 	c := a.do("response", "POST", rtBase+"/invocation/"+id+"/response", map[string]string{"Content-Type": "application/octet-stream"}, body)
 	c.ReqID = id
 	return c
+}
+
+// ResponseSlow posts a response whose body arrives in two parts with a pause of virtual time between them.
+func (a *Actor) ResponseSlow(id string, head, tail []byte, pause time.Duration) *Call {
+	rd := &slowBody{parts: [][]byte{head, tail}, pause: pause}
+	c := a.doR("response", "POST", rtBase+"/invocation/"+id+"/response", map[string]string{"Content-Type": "application/octet-stream"}, append(append([]byte{}, head...), tail...), rd)
+	c.ReqID = id
+	return c
+}
+
+type slowBody struct {
+	parts [][]byte
+	pause time.Duration
+	i     int
+}
+
+func (b *slowBody) Read(p []byte) (int, error) {
+	if b.i >= len(b.parts) {
+		return 0, io.EOF
+	}
+	if b.i > 0 {
+		vtime.Sleep(b.pause)
+	}
+	n := copy(p, b.parts[b.i])
+	if n < len(b.parts[b.i]) {
+		b.parts[b.i] = b.parts[b.i][n:]
+		b.pause = 0
+		return n, nil
+	}
+	b.i++
+	return n, nil
 }
 
 func (a *Actor) Error(id, errType string, body []byte) *Call {
